@@ -194,7 +194,7 @@ func nasConstructors(ctx *Ctx, tab *refnas.Table) {
 				if psi > 16 && dnn != "internet" {
 					continue
 				}
-				sn := &models.Snssai{Sst: int32(1 + psi%3), Sd: []string{"010203", "ffffff", "000001", "ABCDEF", "0A0b0C", "12AbcD"}[psi%6]}
+				sn := &models.Snssai{Sst: int32(1 + psi%3), Sd: []string{"010203", "ffffff", "000001", "ABCDEF", "0A0b0C", "12AbcD", "000000"}[psi%7]}
 				cs := fmt.Sprintf("GetUlNasTransport_PduSessionEstablishmentRequest psi=%d requestType=%d dnn=%d octets sst=%d sd=%s", psi, rt, len(dnn), sn.Sst, sn.Sd)
 				var b []byte
 				if perr := recoverErr(func() { b = nasTestpacket.GetUlNasTransport_PduSessionEstablishmentRequest(uint8(psi), rt, dnn, sn) }); perr != nil {
@@ -258,6 +258,17 @@ func nasConstructors(ctx *Ctx, tab *refnas.Table) {
 				continue
 			}
 			want("ULNASTransport", "PDU-session-ID", cs, opts["PduSessionID2Value"], []byte{byte(psi)})
+			// exactly the IEs the constructor is given values for, whatever was built before it (the establishment
+			// request just above carries a request type, an S-NSSAI and a DNN)
+			allowed := map[string]bool{"PduSessionID2Value": true}
+			if kind == "release-complete" {
+				allowed["RequestType"], allowed["SNSSAI"], allowed["DNN"] = true, true, true
+			}
+			for ie := range opts {
+				if !allowed[ie] {
+					r.Violate("constructor/ULNASTransport/unexpected-IE/"+kind, cs, fmt.Sprintf("%s on the wire (%x) although the constructor was not given one", ie, b), nil)
+				}
+			}
 			if im, _, ok := parse(inner, mand[4], cs+" [container]"); ok {
 				want(inner, "PDU-session-identity", cs, im[1], []byte{byte(psi)})
 				want(inner, "message-type", cs, im[3], []byte{mt})
